@@ -24,12 +24,12 @@ CONFIG = {
     'quick': {'shards': 16, 'budget_s': 150, 'n_mols': 1200,
               'floors': {'evaluations': 6000, 'distinct_nontrivial': 900, 'applications.with-match': 1500, 'products.checked': 3000,
                          'recorder.patcher-calls': 3000, 'branch.deleted-fragment': 150, 'branch.masked': 15, 'branch.new-atom': 300,
-                         'branch.identity': 200, 'documented.deprotections': 25, 'reactor.reactions': 60, 'numbering.compared': 500}},
+                         'branch.identity': 200, 'documented.deprotections': 25, 'reactor.reactions': 60, 'numbering.compared': 500, 'reactor.with-spectators': 150, 'reactor.composed': 150}},
     'thorough': {'shards': 16, 'budget_s': 1800, 'n_mols': 4200,
                  'floors': {'evaluations': 25000, 'distinct_nontrivial': 3000, 'applications.with-match': 6000,
                             'products.checked': 15000, 'recorder.patcher-calls': 15000, 'branch.deleted-fragment': 500,
                             'branch.masked': 100, 'branch.new-atom': 3000, 'branch.identity': 2000, 'documented.deprotections': 25,
-                            'reactor.reactions': 200, 'numbering.compared': 3000}},
+                            'reactor.reactions': 200, 'numbering.compared': 3000, 'reactor.with-spectators': 150, 'reactor.composed': 150}},
 }
 
 # (name, pattern, replacement, kwargs, tags)
@@ -366,6 +366,64 @@ def reactor_checks(ctx, rng, pool):
                             ctx.violation('product-set-depends-on-numbering', '%s(%s, %s) one_shot=%r' % (name, a, b, one_shot), {'template': name, 'smiles': a + '.' + b})
                     except Exception as e:
                         ctx.violation('reactor-raises/%s/%s' % (name, type(e).__name__), '%s renumbered: %r' % (name, e), {'template': name, 'smiles': a + '.' + b})
+    # templates that create atoms, run with spectator molecules (more molecules than patterns): new atoms must get numbers no
+    # other product atom has, spectators must come out unchanged, the reaction must compose to a condensed graph
+    creating = [
+        ('hydroxy-de-bromination', ('[C;z1:1][Br:2]',), ('[A:1][O:3]',), ('CCBr', 'BrCCBr', 'CC(C)CBr')),
+        ('azidation', ('[C;z1:1][Cl:2]',), ('[A:1][N:3]=[N+:4]=[N-:5]', '[Cl-:2]'), ('CCCl', 'ClCc1ccccc1')),
+        ('cyanation', ('[C;z1:1][I:2]',), ('[A:1][C:3]#[N:4]',), ('CI', 'CCCI')),
+        ('boc', ('[N;D1;z1:1][C:2]',), ('[A:1]([A:2])[C:3](=[O:4])[O:5][C:6]([C:7])([C:8])[C:9]',), ('CN', 'NCCO')),
+    ]
+    spectators = ['CCOCC', 'O', 'c1ccccc1', 'CC(=O)O.CN', '[Na+].[Cl-]', 'FC(F)F', 'CCCCCCCC']
+    for name, pats, prods, subs in creating:
+        try:
+            queries = tuple(smarts(p) for p in pats)
+            rx = Reactor(queries, tuple(smarts(p) for p in prods), one_shot=True)
+        except Exception as e:
+            ctx.violation('template-not-buildable/%s' % type(e).__name__, '%s: %r' % (name, e), {'template': name})
+            continue
+        for a in subs:
+            for sp in spectators:
+                for order in (0, 1, 2):
+                    ma = smiles(a)
+                    sps = [smiles(x) for x in sp.split('.')]
+                    mols = [ma] + sps if order == 0 else sps + [ma] if order == 1 else sps[:1] + [ma] + sps[1:]
+                    if order == 2 and rng.random() < .5:
+                        mols = [T.redescribe(x, rng)[0] for x in mols]
+                    w = {'template': name, 'smiles': '.'.join(format(x, '!s') for x in mols)}
+                    ctx.evaluations += 1
+                    ctx.count('reactor.with-spectators')
+                    try:
+                        out = list(rx(*mols))
+                    except Exception as e:
+                        ctx.violation('reactor-raises/%s/%s' % (name, type(e).__name__), '%s%s: %r' % (name, w['smiles'], e), w)
+                        continue
+                    ctx.counters['reactor.reactions'] += len(out)
+                    ctx.case(key=(name, a, sp, order), nontrivial=bool(out), n=0)
+                    if not out:
+                        ctx.violation('reactor-finds-no-match-with-spectators', '%s on %s' % (name, w['smiles']), w)
+                    for r in out:
+                        nums = [n for p in r.products for n in p._atoms]
+                        if len(nums) != len(set(nums)):
+                            ctx.violation('duplicate-atom-numbers-in-products', '%s on %s: product numbers %s' % (name, w['smiles'], sorted(nums)), w)
+                            continue
+                        rn = [n for p in r.reactants for n in p._atoms]
+                        if len(rn) != len(set(rn)):
+                            ctx.violation('duplicate-atom-numbers-in-reactants', '%s on %s' % (name, w['smiles']), w)
+                            continue
+                        want = sorted(_canon(x) for x in sps if not any(q <= x for q in queries))    # true spectators only
+                        have = sorted(_canon(p) for p in r.products)
+                        for x in want:
+                            if x not in have:
+                                ctx.violation('spectator-changed-or-lost', '%s on %s: %s not among products %s' % (name, w['smiles'], x, have), w)
+                                break
+                            have.remove(x)
+                        try:
+                            cgr = ~r
+                            str(cgr)
+                            ctx.count('reactor.composed')
+                        except Exception as e:
+                            ctx.violation('reaction-does-not-compose/%s' % type(e).__name__, '%s on %s: %r' % (name, w['smiles'], e), w)
     # built-in prepared reactors on simple partners
     try:
         from chython.reactor import reactions as RX
